@@ -85,7 +85,19 @@ pub fn write_dso_debug_stream(
         .get_program_header_address()
         .ok_or(SectionDsoDebugError::CouldNotFind("AT_PHDR in auxv"))? as usize;
 
-    let ph = PtraceDumper::copy_from_process(blamed_thread, phdr, SIZEOF_PHDR * phnum_max)?;
+    // Both values come from the auxiliary vector of the target (or from the caller), so the
+    // table may be absurdly large or only partially readable.
+    let ph_size = SIZEOF_PHDR
+        .checked_mul(phnum_max)
+        .ok_or(SectionDsoDebugError::CouldNotFind(
+            "a plausible AT_PHNUM in auxv",
+        ))?;
+    let ph = PtraceDumper::copy_from_process(blamed_thread, phdr, ph_size)?;
+    if ph.len() < ph_size {
+        return Err(SectionDsoDebugError::CouldNotFind(
+            "readable program headers at AT_PHDR",
+        ));
+    }
     let program_headers;
     #[cfg(target_pointer_width = "64")]
     {
@@ -108,7 +120,7 @@ pub fn write_dso_debug_stream(
         // Adjust base address with the virtual address of the PT_LOAD segment
         // corresponding to offset 0
         if ph.p_type == goblin::elf::program_header::PT_LOAD && ph.p_offset == 0 {
-            base -= ph.p_vaddr as usize;
+            base = base.wrapping_sub(ph.p_vaddr as usize);
         }
         if ph.p_type == goblin::elf::program_header::PT_DYNAMIC {
             dyn_addr = ph.p_vaddr;
@@ -121,7 +133,7 @@ pub fn write_dso_debug_stream(
         ));
     }
 
-    dyn_addr += base as ElfAddr;
+    dyn_addr = dyn_addr.wrapping_add(base as ElfAddr);
 
     let dyn_size = std::mem::size_of::<goblin::elf::Dyn>();
     let mut r_debug = 0usize;
@@ -141,7 +153,9 @@ pub fn write_dso_debug_stream(
         // goblin::elf::Dyn doesn't have padding bytes
         let (head, body, _tail) = unsafe { dyn_data.align_to::<goblin::elf::Dyn>() };
         assert!(head.is_empty(), "Data was not aligned");
-        let dyn_struct = &body[0];
+        let dyn_struct = body.first().ok_or(SectionDsoDebugError::CouldNotFind(
+            "a readable entry in the dynamic section",
+        ))?;
 
         let debug_tag = goblin::elf::dynamic::DT_DEBUG;
         if dyn_struct.d_tag == debug_tag {
@@ -165,7 +179,9 @@ pub fn write_dso_debug_stream(
     // goblin::elf::Dyn doesn't have padding bytes
     let (head, body, _tail) = unsafe { debug_entry_data.align_to::<RDebug>() };
     assert!(head.is_empty(), "Data was not aligned");
-    let debug_entry = &body[0];
+    let debug_entry = body
+        .first()
+        .ok_or(SectionDsoDebugError::CouldNotFind("a readable r_debug"))?;
 
     // Count the number of loaded DSOs
     let mut dso_vec = Vec::new();
@@ -180,7 +196,9 @@ pub fn write_dso_debug_stream(
         // LinkMap is repr(C) and doesn't have padding bytes, so this should be safe
         let (head, body, _tail) = unsafe { link_map_data.align_to::<LinkMap>() };
         assert!(head.is_empty(), "Data was not aligned");
-        let map = &body[0];
+        let map = body
+            .first()
+            .ok_or(SectionDsoDebugError::CouldNotFind("a readable link_map"))?;
 
         curr_map = map.l_next;
         dso_vec.push(map.clone());
